@@ -6,8 +6,9 @@ Three streams:
             Net/Bom.v and (b) checked by an oracle that recomputes the views independently from the raw lists.
   builders  network_from_edges / single_stage / serial / owmr / mwor with all argument shapes; compared with
             Net/Builders.v and checked against the documented postconditions.
-  levels    local <-> echelon base-stock conversions on random serial systems; compared with Net/Levels.v (exact,
-            dyadic inputs) and round-trip oracle.
+  levels    local <-> echelon base-stock conversions on random serial systems (made by serial_system() or reached through
+            the mutators / network_from_edges, so that the storage order of the nodes is arbitrary); compared with
+            Net/Levels.v (exact, dyadic inputs) and round-trip oracle.
 """
 import itertools
 from fractions import Fraction
@@ -19,8 +20,10 @@ RULE = ('ops: sequences of <= 30 operations (add_node, add_edge, add_edges_from_
         'with injective dicts) on <= 6 live nodes (indices < 12) and 4 pooled products, plus a malformed stream (unknown '
         'node/product indices, incomplete reindex dict) ended at the first exception; one case per operation prefix. '
         'builders: every builder x argument shape (None, scalar, list with/without node_order_in_lists, dict, per-node '
-        'None entries) x sizes <= 5 x labelling (default or random); attribute values include 0 and 0.0 (kept distinct from None), up to 4 further copied attributes per case (oracle only, incl. the holding_cost / lead_time alias keywords and round_to_int=False) and a systematic sweep placing exactly 0 / False at one node for every copied attribute x shape x builder. levels: serial systems of 1..7 nodes, random labelling, '
-        'levels k/4. non-trivial = the network after the prefix has >= 2 nodes and >= 1 arc (ops), >= 2 nodes (builders, levels); '
+        'None entries) x sizes <= 5 x labelling (default or random); attribute values include 0 and 0.0 (kept distinct from None), up to 4 further copied attributes per case (oracle only, incl. the holding_cost / lead_time alias keywords and round_to_int=False) and a systematic sweep placing exactly 0 / False at one node for every copied attribute x shape x builder. levels: serial systems of 1..7 nodes, random labelling, levels k/4, half of them made by serial_system() and half reached another way: '
+        'nodes added in any order and linked afterwards (add_edge / add_edges_from_list in any order), grown from an inner node with add_successor / add_predecessor, '
+        'a longer chain trimmed at its ends with remove_node, optionally re-indexed, or network_from_edges with the arcs in any order (so network.nodes is stored in any order relative to the chain); '
+        'dict keys in any order, sometimes a key that is not a node; both conversions are repeated on the same network and the argument dicts are checked to be unchanged. non-trivial = the network after the prefix has >= 2 nodes and >= 1 arc (ops), >= 2 nodes (builders, levels); '
         'distinct = distinct canonical structure (ops) / distinct argument tuple (builders, levels).')
 
 
@@ -739,35 +742,145 @@ def gen_levels(rng, maxn=7):
     return {'stream': 'levels', 'sys': sys_, 'S': S, 'default_labels': sys_ == list(range(n))}
 
 
+def chain_pairs(chain):
+    return [[chain[j], chain[j + 1]] for j in range(len(chain) - 1)]
+
+
+def gen_levels_built(rng, maxn=7):
+    """serial systems that are NOT made by serial_system(): the same chain reached through the mutators (nodes added in any
+    order and linked afterwards, grown from an inner node with add_successor / add_predecessor, a longer chain trimmed with
+    remove_node, re-indexed at the end) or through network_from_edges with the arcs listed in any order.  The conversions are
+    documented for any serial network, so neither the labelling nor the order in which the node objects happen to be stored
+    in network.nodes may matter.  c['sys'] is the final chain, source first."""
+    n = rng.choice([1, 2, 2] + list(range(3, maxn + 1)) * 3)
+    chain = rng.sample(range(12), n)
+    how = rng.choice(['nodes+edges', 'nodes+edges', 'grow', 'grow', 'trim', 'nfe'])
+    if how == 'nfe' and n < 2: how = 'nodes+edges'
+    def fl(i, ch): return [i == ch[0] and rng.random() < 0.5, i == ch[-1] and rng.random() < 0.5]
+    def nodes_edges(ch):
+        perm = ch[:]; rng.shuffle(perm)
+        ops = [['add_node', i] + fl(i, ch) for i in perm]
+        es = chain_pairs(ch); rng.shuffle(es)
+        while es:
+            k = rng.randint(1, len(es)); part, es = es[:k], es[k:]
+            if len(part) == 1 and rng.random() < 0.7: ops.append(['add_edge', part[0][0], part[0][1]])
+            else: ops.append(['add_edges', part])
+        return ops
+    def grow(ch):
+        j = rng.randrange(len(ch)); lo = hi = j
+        ops = [['add_node', ch[j]] + fl(ch[j], ch)]
+        while lo > 0 or hi < len(ch) - 1:
+            if hi == len(ch) - 1 or (lo > 0 and rng.random() < 0.5):
+                ops.append(['add_pred', ch[lo], ch[lo - 1]] + fl(ch[lo - 1], ch)); lo -= 1
+            else:
+                ops.append(['add_succ', ch[hi], ch[hi + 1]] + fl(ch[hi + 1], ch)); hi += 1
+        return ops
+    if how == 'nfe':
+        es = chain_pairs(chain); rng.shuffle(es)
+        build = ['nfe', es]
+    else:
+        if how == 'trim':
+            free = [i for i in range(12) if i not in chain]; rng.shuffle(free)
+            a = rng.randint(0, min(2, len(free))); b = rng.randint(0 if a else 1, 2)
+            pre, post = free[:a], free[a:a + b]
+            long_ = pre + chain + post
+            ops = (nodes_edges if rng.random() < 0.5 else grow)(long_)
+            # only end nodes are removed, so that what is left is a chain again
+            lo, hi = 0, len(long_) - 1
+            while lo < len(pre) or hi > len(pre) + len(chain) - 1:
+                if hi == len(pre) + len(chain) - 1 or (lo < len(pre) and rng.random() < 0.5):
+                    ops.append(['remove_node', long_[lo]]); lo += 1
+                else:
+                    ops.append(['remove_node', long_[hi]]); hi -= 1
+        else:
+            ops = (nodes_edges if how == 'nodes+edges' else grow)(chain)
+        if rng.random() < 0.3:
+            m = dict(zip(chain, rng.sample(range(12), n)))
+            ops.append(['reindex', [[a, m[a]] for a in chain]]); chain = [m[a] for a in chain]; how += '+reindex'
+        build = ['ops', ops]
+    neg = rng.random() < 0.1
+    S = [[i, str(Fraction(rng.randint(-8 if neg else 0, 40), 4))] for i in chain]
+    if rng.random() < 0.3:
+        for e in S:
+            if rng.random() < 0.4: e[1] = '0'
+    rng.shuffle(S)                                   # the order of the keys of the dict is free as well
+    if rng.random() < 0.15:                          # a key that is not a node: ignored
+        S.append([rng.choice([i for i in range(13) if i not in chain]), str(Fraction(rng.randint(1, 40), 4))])
+    return {'stream': 'levels', 'sys': chain, 'S': S, 'default_labels': False, 'build': build, 'how': how}
+
+
+def build_levels_net(c):
+    from stockpyl import supply_chain_network as scn
+    sys_ = c['sys']; b = c.get('build')
+    if b is None:
+        return scn.serial_system(len(sys_), node_order_in_system=None if c['default_labels'] else sys_)
+    if b[0] == 'nfe':
+        return scn.network_from_edges([tuple(e) for e in b[1]])
+    w = World()
+    for op in b[1]: w.apply(op)
+    return w.net
+
+
 def run_impl_levels(c):
     from stockpyl import supply_chain_network as scn
-    sys_ = c['sys']; S = {int(i): float(Fraction(v)) for i, v in c['S']}
+    S = {int(i): float(Fraction(v)) for i, v in c['S']}
     try:
-        net = scn.serial_system(len(sys_), node_order_in_system=None if c['default_labels'] else sys_)
-        e = scn.local_to_echelon_base_stock_levels(net, S)
-        l = scn.echelon_to_local_base_stock_levels(net, e)
-        return ('ok', [(n.index, F(e[n.index])) for n in net.nodes], [(n.index, F(l[n.index])) for n in net.nodes])
+        net = build_levels_net(c)
+        S_in = dict(S)
+        e = scn.local_to_echelon_base_stock_levels(net, S_in)
+        e_in = dict(e)
+        l = scn.echelon_to_local_base_stock_levels(net, e_in)
+        # the same conversions once more on the same network object, and a fresh dict for the way back
+        e2 = scn.local_to_echelon_base_stock_levels(net, dict(S))
+        l2 = scn.echelon_to_local_base_stock_levels(net, dict(e2))
+        info = {'stored': [n.index for n in net.nodes], 'edges': [[a, b] for (a, b) in raw_edges(net)],
+                'keys_e': sset(e.keys()), 'keys_l': sset(l.keys()),
+                'S_mutated': None if S_in == S else jsonable(sset(S_in.items())), 'e_mutated': None if e_in == e else jsonable(sset(e_in.items())),
+                'repeat_differs': None if (e2 == e and l2 == l) else [jsonable(sset(e2.items())), jsonable(sset(l2.items()))]}
+        return ('ok', [(n.index, F(e[n.index])) for n in net.nodes], [(n.index, F(l[n.index])) for n in net.nodes], info)
     except Exception as ex:
         return ('err', exc_kind(ex), str(ex)[:200])
 
 
 def coq_levels(c):
-    nl = clist([cnat(x) for x in c['sys']])
     S = clist(['(%s, %s)' % (cnat(i), cq(Fraction(v))) for i, v in c['S']])
-    return 'match serial_system %s None no_args with BOk b => Some (obs_levels (bn b) %s) | BErr _ => None end' % (nl, S)
+    b = c.get('build')
+    if b is None:
+        nl = clist([cnat(x) for x in c['sys']])
+        return 'match serial_system %s None no_args with BOk b => Some (obs_levels (bn b) %s) | BErr _ => None end' % (nl, S)
+    if b[0] == 'nfe':
+        es = clist(['(%s, %s)' % (cnat(a), cnat(x)) for a, x in b[1]])
+        return 'match network_from_edges %s None no_args with BOk b => Some (obs_levels (bn b) %s) | BErr _ => None end' % (es, S)
+    return 'match run %s empty_net with Ok w => Some (obs_levels w %s) | Err _ => None end' % (clist([coq_op(o) for o in b[1]]), S)
 
 
 def oracle_levels(c, r):
+    from collections import Counter
     bad = []
     sys_ = c['sys']; S = {int(i): Fraction(v) for i, v in c['S']}
-    _, e, l = r
+    e, l = r[1], r[2]; info = r[3] if len(r) > 3 else None
     e = dict(e); l = dict(l)
+    feat = ''; where = ''
+    if info is not None:
+        # the network the conversions ran on is the documented chain (raw successor lists), whatever way it was built
+        if Counter(tuple(x) for x in info['edges']) != Counter(tuple(x) for x in chain_pairs(sys_)) or sorted(info['stored']) != sorted(sys_):
+            bad.append(('serial-construction|not-the-chain', 'nodes %r arcs %r, the construction is documented to give the chain %r' % (info['stored'], info['edges'], sys_)))
+            return bad
+        if info['stored'] != sys_:
+            feat = '|nodes-not-stored-source-first'
+        where = ' [chain %s, network.nodes stored as %r, built by %s]' % ('->'.join(map(str, sys_)), info['stored'], c.get('how', 'serial_system'))
     for j, i in enumerate(sys_):
         want = sum(S[x] for x in sys_[j:])
-        if e.get(i) != want: bad.append(('local_to_echelon|suffix-sum', 'echelon level of node %d is %s, sum of local levels of it and its downstream nodes is %s' % (i, e.get(i), want)))
-    if all(v >= 0 for v in S.values()):
+        if e.get(i) != want: bad.append(('local_to_echelon|suffix-sum' + feat, 'echelon level of node %d is %s, sum of local levels of it and its downstream nodes is %s%s' % (i, e.get(i), want, where)))
+    if all(S[i] >= 0 for i in sys_):
         for i in sys_:
-            if l.get(i) != S[i]: bad.append(('echelon_to_local|round-trip', 'node %d: local %s -> echelon -> local gives %s' % (i, S[i], l.get(i))))
+            if l.get(i) != S[i]: bad.append(('echelon_to_local|round-trip' + feat, 'node %d: local %s -> echelon -> local gives %s%s' % (i, S[i], l.get(i), where)))
+    if info is not None:
+        if info['keys_e'] != sorted(sys_): bad.append(('local_to_echelon|key-set', 'keys of the result %r, nodes %r%s' % (info['keys_e'], sorted(sys_), where)))
+        if info['keys_l'] != sorted(sys_): bad.append(('echelon_to_local|key-set', 'keys of the result %r, nodes %r%s' % (info['keys_l'], sorted(sys_), where)))
+        if info['S_mutated'] is not None: bad.append(('local_to_echelon|argument-modified', 'S_local was %r, after the call %r%s' % (sset(S.items()), info['S_mutated'], where)))
+        if info['e_mutated'] is not None: bad.append(('echelon_to_local|argument-modified', 'S_echelon was %r, after the call %r%s' % (sset(e.items()), info['e_mutated'], where)))
+        if info['repeat_differs'] is not None: bad.append(('base_stock_level_conversion|repeat-call-differs', 'second conversion on the same network gives echelon/local %r, first %r / %r%s' % (info['repeat_differs'], sset(e.items()), sset(l.items()), where)))
     return bad
 
 
@@ -1099,6 +1212,8 @@ def explore_builders(chk, n, sizes, do_model=True):
 
 def check_levels_case(chk, c, im, mo=None, do_model=True):
     chk.count('levels_n=%d' % len(c['sys'])); chk.count('levels_negative=%s' % any(Fraction(v) < 0 for _, v in c['S']))
+    chk.count('levels_build=%s' % c.get('how', 'serial_system'))
+    if im[0] == 'ok' and len(im) > 3: chk.count('levels_nodes_stored_source_first=%s' % (im[3]['stored'] == c['sys']))
     if im[0] != 'ok':
         chk.fail('base_stock_level_conversion|raises-%s' % im[1], 'conversion raised %s: %s' % (im[1], im[2]), c)
         chk.case(c, False); return
@@ -1114,14 +1229,15 @@ def check_levels_case(chk, c, im, mo=None, do_model=True):
             ml = [(i, qv(un_opt(v)) if v is not None else None) for i, v in l]
             if me != im[1] or ml != im[2]:
                 chk.mismatch('levels: implementation echelon %r local %r vs model %r %r' % (jsonable(im[1]), jsonable(im[2]), jsonable(me), jsonable(ml)), c)
-    chk.case(c, len(c['sys']) >= 2, key=json.dumps(jsonable([c['sys'], c['S']])))
+    chk.case(c, len(c['sys']) >= 2, key=json.dumps(jsonable([c['sys'], c['S'], c.get('build')])))
 
 
 def explore_levels(chk, n, maxn, do_model=True):
-    cases = [gen_levels(chk.rng, maxn) for _ in range(n)]
+    cases = [gen_levels(chk.rng, maxn) for _ in range(n)] + [gen_levels_built(chk.rng, maxn) for _ in range(n)]
     impl = [run_impl_levels(c) for c in cases]
-    model = coq_eval_sharded('c18l', 'Net.Builders Net.Levels', 'Open Scope Z_scope.', [coq_levels(c) for c in cases], shard=250) if do_model else [None] * n
-    for c, im, mo in zip(cases, impl, model):
+    model = coq_eval_sharded('c18l', 'Net.Builders Net.Levels', 'Open Scope Z_scope.', [coq_levels(c) for c in cases], shard=250) if do_model else [None] * len(cases)
+    # smallest systems first, so that the first failing input recorded for a signature is a small one
+    for c, im, mo in sorted(zip(cases, impl, model), key=lambda t: len(t[0]['sys'])):
         check_levels_case(chk, c, im, mo, do_model)
 
 
